@@ -7597,6 +7597,8 @@ MHD_connection_handle_idle (struct MHD_Connection *connection)
         connection->state = MHD_CONNECTION_HEADERS_PROCESSED;
         MHD_destroy_response (connection->rp.response);
         connection->rp.response = NULL;
+        /* The body of the next response starts from its beginning */
+        connection->rp.rsp_write_position = 0;
         /* FIXME: maybe partially reset memory pool? */
         continue;
       }
